@@ -97,6 +97,7 @@ func runC01(c *core.Ctx) {
 	universe := gen.Universe()
 	atoms := gen.Atoms()
 	schemas := c01Schemas()
+	c.CoverN("workload", "patterns first compiled by a permissive custom regexp compiler", primeCustomRegexCompiler(atoms))
 	c.CoverN("workload", "systematic_schemas", 0)
 	idx := 0
 	for _, s := range schemas {
